@@ -135,7 +135,8 @@ def emitFunction (env : Env) (cfg : Cfg) (ir : IR) : Except String Top := do
     a `.` (attribute names) or starting with a digit are skipped -/
 def typeNamesAux : Nat → List Char → List Char → Bool → List (List Char)
   | 0, _, _, _ => []
-  | _, [], acc, _ => if acc.isEmpty then [] else [acc.reverse]
+  | _, [], acc, afterDot =>
+    if acc.isEmpty || afterDot || (match acc.reverse with | d :: _ => Py.isAsciiDigit d | [] => false) then [] else [acc.reverse]
   | fuel + 1, c :: cs, acc, afterDot =>
     if isIdentChar c then typeNamesAux fuel cs (c :: acc) afterDot
     else
